@@ -1,0 +1,6 @@
+//go:build !verif
+
+package workerpool
+
+// verifHookSubmit is a no-op in regular builds (see verif_hook_on.go).
+func verifHookSubmit(*WorkerPool) {}
